@@ -26,7 +26,9 @@ type Side struct {
 	MOTD    []string
 	Status  fbb.StatusUpdater
 	Modem   bool // pose as a modem with TxBufferLen/Flush/SetRobust
-	Setup   func(*fbb.Session)
+	// ModemTxDelay is the latency of the modem's TxBufferLen query.
+	ModemTxDelay time.Duration
+	Setup        func(*fbb.Session)
 }
 
 // Outcome is what one Exchange call returned.
@@ -88,10 +90,14 @@ func RunPair(a, b *Side, plan vpipe.Plan, record bool) (Result, *vpipe.Link) {
 	ea, eb, link := vpipe.New(plan, record)
 	var ca, cb net.Conn = ea, eb
 	if a.Modem {
-		ca = vpipe.AsModem(ea)
+		m := vpipe.AsModem(ea)
+		m.TxQueryDelay = a.ModemTxDelay
+		ca = m
 	}
 	if b.Modem {
-		cb = vpipe.AsModem(eb)
+		m := vpipe.AsModem(eb)
+		m.TxQueryDelay = b.ModemTxDelay
+		cb = m
 	}
 	sa, sb := NewSession(a, b), NewSession(b, a)
 	var res Result
